@@ -1,10 +1,13 @@
 ---- MODULE FindIfMC ----
-(* Model-checking instance of FindIf.  IOEnv: FI_MAXN (lengths 0..FI_MAXN), FI_VARIANT ("orig" | "fixed"),  *)
-(* FI_POS ("few" | "all"), FI_CASES (file; every finished behaviour is appended as one JSON line            *)
+(* Model-checking instance of FindIf.  IOEnv: FI_MAXN, FI_NMOD, FI_NPHASE (lengths), FI_VARIANT ("orig" | "fixed" | "both"),  *)
+(* FI_POS ("none" | "few" | "all"), FI_CASES (file; every finished behaviour is appended as one JSON line            *)
 (* {var, n, m, pol, calls, result, oob, div} = input, expected predicate calls, expected result).           *)
 EXTENDS FindIf, Json, IOUtils
 MaxNC == atoi(IOEnv.FI_MAXN)
-VariantsC == {IOEnv.FI_VARIANT}
+NModC == atoi(IOEnv.FI_NMOD)        \* 1 = every length 0..FI_MAXN; k > 1 = lengths <= 64 and those = FI_NPHASE mod k
+NPhaseC == atoi(IOEnv.FI_NPHASE)
+LengthsC == {k \in 0..MaxNC : NModC = 1 \/ k <= 64 \/ k % NModC = NPhaseC}
+VariantsC == IF IOEnv.FI_VARIANT = "both" THEN {"orig", "fixed"} ELSE {IOEnv.FI_VARIANT}
 PosModeC == IOEnv.FI_POS
 Export ==
   (Ended' /\ ~Ended) =>
